@@ -10,7 +10,7 @@
 From Coq Require Import List Bool NArith PeanoNat.
 Import ListNotations.
 Require Import PV.Binder.Kind PV.Gen.Kinds PV.Binder.Sig PV.Binder.Bind PV.Binder.PyBind.
-Require Import PV.Proofs.BinderConcrete PV.Proofs.BinderValid PV.Proofs.BinderStar PV.Proofs.BinderMain.
+Require Import PV.Proofs.BinderConcrete PV.Proofs.BinderValid PV.Proofs.BinderStar PV.Proofs.BinderMain PV.Proofs.BinderDef.
 Open Scope N_scope.
 
 (* 1. Concrete call shapes: for EVERY valid signature (any number of parameters,
@@ -96,3 +96,11 @@ Theorem C05_valid_sig_shape : forall s, valid_sig s = true ->
   names_nodup (map pname s) = true /\ pos_before_vp s = true.
 Proof. exact valid_sig_shape. Qed.
 Print Assumptions C05_valid_sig_shape.
+
+(* 6. Signature.validate (over the regenerated KIND_TO_ALLOWED_PREVIOUS / CAN_HAVE_DEFAULT)
+      accepts exactly the parameter lists a `def` header can denote:
+      po.. / pok.. *vp ko.. **vk in that order, at most one *vp and **vk, neither with a
+      default, no default-less po/pok after one with a default, distinct names. *)
+Theorem C05_valid_sig_matches_def : forall s, valid_sig s = def_header_ok s.
+Proof. exact valid_sig_matches_def. Qed.
+Print Assumptions C05_valid_sig_matches_def.
